@@ -112,7 +112,16 @@ def strain_stress(b):
                 tidal_solution_y=CArr("y", lambda idx: y[int(idx[0])], (6, nr)), longitude_array=CArr("lon", R("longitude"), (nlon,)),
                 colatitude_array=CArr("col", R("colatitude"), (ncol,)), time_array=CArr("time", R("time"), (nt,)), radius_array=CArr("rad", r, (nr,)),
                 shear_moduli=CArr("mu", mu, (nr,)), bulk_moduli=CArr("K", K, (nr,)), frequency=R("frequency"), order_l=l)
-    npx = Namespace("np", {"sin": lambda ex, node, x: sT, "tan": lambda ex, node, x: sT / cT, "empty": _sh_empty, "complex128": "complex128", "real": _sh_real, "imag": _sh_imag, "abs": _sh_abs})
+    def _sqrt(ex, node, x):
+        # sqrt(1 - sin^2) is |cos| (NOT cos: the colatitude runs over both hemispheres): split on the sign of the cosine atom
+        from tpv.symex import _sh_sqrt
+        x_ = sp.expand(sp.sympify(x)) if not isinstance(x, Cx) else None
+        if x_ is not None and sp.expand(x_ - (1 - sT ** 2)) == 0:
+            return cT if ex.truth(ex.compare(ast.GtE(), cT, sp.Integer(0), node), node) else -cT
+        if x_ is not None and sp.expand(x_ - (1 - cT ** 2)) == 0:
+            return sT            # colatitude in (0, pi): sin > 0
+        return _sh_sqrt(ex, node, x)
+    npx = Namespace("np", {"sin": lambda ex, node, x: sT, "cos": lambda ex, node, x: cT, "tan": lambda ex, node, x: sT / cT, "sqrt": _sqrt, "empty": _sh_empty, "complex128": "complex128", "real": _sh_real, "imag": _sh_imag, "abs": _sh_abs})
     lam = K - Cx(sp.Rational(2, 3)) * mu
     pre = [sp.Gt(r, 0), sp.Gt(sT, 0), sp.Ne(cT, 0), sp.Eq(sT ** 2 + cT ** 2, 1), sp.Ge(l, 2), sp.Gt(mu.abs2(), 0), sp.Gt((lam + Cx(2) * mu).abs2(), 0)]
     fn = Fn(FS, "calculate_strain_stress")
